@@ -23,6 +23,9 @@ def run(ctx, R, tier):
     c06.prev(F, R)
     c06.set_unconditional(F, R, rule='B.C17.set')
     # 'in the same chunk in which the modulator produced it': a sound is never picked up before the modulator it is linked to
+    c06.duration_interp(F, R, rule='B.C17.interp')
+    from .c07 import write_unconditional
+    write_unconditional(F, R, rule='B.C17.cmd', floor=6, fn_filter=lambda q: q.startswith('modulator::') and 'handle' in q)
     from .c07 import pickup_order
     pickup_order(F, R, rule='B.C17.pickup-order', which=('renderer',))
     from ..enginea import run_singular_only
